@@ -11,7 +11,7 @@
  "thorough_defines": ["HP_MAXN=15"],
  "matrix": {"HP_MODEL": [1, 2]},
  "loop_contracts": false,
- "cbmc": ["--malloc-may-fail", "--malloc-fail-null", "--memory-leak-check"],
+ "cbmc": ["--unwindset", "heapify.0:5,heapifyup.0:5", "--malloc-may-fail", "--malloc-fail-null", "--memory-leak-check"],
  "unwind": 9, "thorough_unwind": 17,
  "bounded": true, "bound": "heaps with <= 7 elements (quick) / <= 15 (thorough); all loops fully unwound",
  "timeout": 600,
@@ -44,7 +44,7 @@ h_ptrheap_delete(void)
 	VCOVER(use_rc && rc == 0 && n == HP_MAXN && HP_POS(last) >= 3);
 	VCOVER(!use_rc && rc == n - 1 && n > 1);
 	VCOVER(n == 1);
-	VCOVER(n > 2 && H_l_ea->buf != buf0);
+	VCOVER(n == 2 && H_l_ea->buf != buf0 && H_l_ea->buf != NULL);	/* the shrinking realloc moved the buffer */
 	/* release everything with the normal calls: the memory-leak obligation shows nothing else is live */
 	free(HP_EA(H->elems)->buf); free(H->elems); free(H); free(ck);
 	HP_FREE_RECS();
